@@ -860,19 +860,64 @@ def lin(e: ast.expr, level: str, par: str):
     return None
 
 
-def eval_level_condition(test: ast.expr, level_v: int, parent_v: int, level: str, par: str) -> bool:
-    """Truth of a branch test for concrete (level, parent level). Unsupported outside and/or/not/linear compares."""
-    if isinstance(test, ast.UnaryOp) and isinstance(test.op, ast.Not):
-        return not eval_level_condition(test.operand, level_v, parent_v, level, par)
-    if isinstance(test, ast.BoolOp):
-        vals = [eval_level_condition(v, level_v, parent_v, level, par) for v in test.values]
-        return all(vals) if isinstance(test.op, ast.And) else any(vals)
+def _linear_compare(test: ast.expr, level: str, par: str):
     if isinstance(test, ast.Compare) and len(test.ops) == 1 and type(test.ops[0]) in REL_TXT:
         x, y = lin(test.left, level, par), lin(test.comparators[0], level, par)
         if x is not None and y is not None:
-            v = (x[0] - y[0]) * level_v + (x[1] - y[1]) * parent_v + (x[2] - y[2])
-            return {ast.Lt: v < 0, ast.LtE: v <= 0, ast.Gt: v > 0, ast.GtE: v >= 0, ast.Eq: v == 0, ast.NotEq: v != 0}[type(test.ops[0])]
+            return (x[0] - y[0], x[1] - y[1], x[2] - y[2], type(test.ops[0]))
+    return None
+
+
+def condition_atoms(test: ast.expr, level: str, par: str) -> list[ast.expr]:
+    """Leaves of a branch test that are not linear comparisons of level / parent level."""
+    if isinstance(test, ast.UnaryOp) and isinstance(test.op, ast.Not):
+        return condition_atoms(test.operand, level, par)
+    if isinstance(test, ast.BoolOp):
+        return [a for v in test.values for a in condition_atoms(v, level, par)]
+    if _linear_compare(test, level, par) is not None or (isinstance(test, ast.Constant) and isinstance(test.value, bool)):
+        return []
+    return [test]
+
+
+def eval_level_condition(test: ast.expr, level_v: int, parent_v: int, level: str, par: str, free: dict[str, bool] | None = None) -> bool:
+    """Truth of a branch test for concrete (level, parent level); other leaves take their value from ``free``."""
+    if isinstance(test, ast.UnaryOp) and isinstance(test.op, ast.Not):
+        return not eval_level_condition(test.operand, level_v, parent_v, level, par, free)
+    if isinstance(test, ast.BoolOp):
+        vals = [eval_level_condition(v, level_v, parent_v, level, par, free) for v in test.values]
+        return all(vals) if isinstance(test.op, ast.And) else any(vals)
+    if isinstance(test, ast.Constant) and isinstance(test.value, bool):
+        return test.value
+    lc = _linear_compare(test, level, par)
+    if lc is not None:
+        v = lc[0] * level_v + lc[1] * parent_v + lc[2]
+        return {ast.Lt: v < 0, ast.LtE: v <= 0, ast.Gt: v > 0, ast.GtE: v >= 0, ast.Eq: v == 0, ast.NotEq: v != 0}[lc[3]]
+    if free is not None and unparse(test) in free:
+        return free[unparse(test)]
     raise Unsupported(f"warning condition `{short(test, 60)}` is not a boolean combination of linear comparisons of level and parent level")
+
+
+def render_state_read(corpus: Corpus, fi: FunctionInfo, atom: ast.expr) -> tuple[str, str] | None:
+    """(attribute, site of a write) if ``atom`` reads a ``self.<attr>`` that some function changes during a render."""
+    exprs = [atom]
+    for n in ast.walk(atom):
+        if isinstance(n, ast.Name):
+            d = single_def(fi, n.id)
+            if d is not None:
+                exprs.append(d)
+    attrs = []
+    for e in exprs:
+        for n in ast.walk(e):
+            if isinstance(n, ast.Attribute) and isinstance(n.value, ast.Name) and n.value.id == "self" and n.attr not in attrs:
+                attrs.append(n.attr)
+    for attr in attrs:
+        for f in _all_plain_functions(corpus):
+            if _is_initialiser(corpus, f):
+                continue
+            ws = writes_attr(f.local_nodes(), attr)
+            if ws:
+                return (attr, f"{f.qualname} ({f.module.site(ws[0])})")
+    return None
 
 
 def _map_keys_iter(it: ast.expr) -> str | None:
@@ -1256,28 +1301,47 @@ def r3_ordering_roles(corpus: Corpus, rep: Report, tier: str):
                 wrong_edges = {("F" if pol else "T", i) for i, pol in conds}
                 if cfg.paths_avoiding(ENTRY, EXIT, lambda n: n is w or n in wrong_edges):
                     raise Unsupported("some path reaches the exit without passing the warning's branch decision: the warning condition is not the conjunction of its enclosing tests")
-            # evaluate the branch tests on the grid parent level 0..8 x skip 1..12 (level = parent + skip)
+            # evaluate the branch tests on the grid parent level 0..8 x skip 1..12 (level = parent + skip);
+            # leaves that read state changed during the render are free booleans: the verdict must hold for every value
+            free_atoms: dict[str, tuple[str, str]] = {}
+            for _w, conds in sites:
+                for i, _pol in conds:
+                    for atom in condition_atoms(i.test, p_lvl, par):
+                        hs = render_state_read(corpus, upd, atom)
+                        if hs is None:
+                            raise Unsupported(f"warning condition `{short(atom, 60)}` is neither a linear comparison of level and parent level nor a test of state that changes during the render")
+                        free_atoms[unparse(atom)] = hs
+            if len(free_atoms) > 4:
+                raise Unsupported("too many state-dependent tests in the warning condition")
             bad = None
-            for pv in range(0, 9):
-                for d in range(1, 13):
-                    emitted = sum(all(eval_level_condition(i.test, pv + d, pv, p_lvl, par) == pol for i, pol in conds) for _w, conds in sites)
-                    if (emitted >= 1) != (d >= 2) and bad is None:
-                        bad = (pv, d, emitted)
+            names = sorted(free_atoms)
+            for vals in itertools.product((True, False), repeat=len(names)):
+                free = dict(zip(names, vals))
+                for pv in range(0, 9):
+                    for d in range(1, 13):
+                        emitted = sum(all(eval_level_condition(i.test, pv + d, pv, p_lvl, par, free) == pol for i, pol in conds) for _w, conds in sites)
+                        if (emitted >= 1) != (d >= 2) and bad is None:
+                            bad = (pv, d, emitted, free)
             cond_txt = " | ".join(" and ".join(("" if pol else "not ") + short(i.test, 70) for i, pol in reversed(conds)) for _w, conds in sites)
             outer = sites[0][1][-1][0]
             if bad:
-                pv, d, emitted = bad
+                pv, d, emitted, free = bad
+                hist = ""
+                if free:
+                    hist = " when " + " and ".join(f"`{n}` is {v}" for n, v in free.items()) + "; " + "; ".join(
+                        f"`{n}` reads self.{free_atoms[n][0]}, which {free_atoms[n][1]} changes during the render, so whether a skip is reported depends on what was rendered before" for n in free
+                    )
                 rep.violation(
                     "C05.R3",
                     k,
                     base.site(outer),
-                    f"with the parent at level {pv} and the heading at level {pv + d} the warning is {'emitted' if emitted else 'not emitted'}; "
+                    f"with the parent at level {pv} and the heading at level {pv + d} the warning is {'emitted' if emitted else 'not emitted'}{hist}; "
                     f"required: exactly when the heading skips at least one level (condition: `{cond_txt}`)",
                 )
             else:
                 rep.ok("C05.R3", k, base.site(outer), "emitted for every skip of 2..12 levels above a parent at level 0..8, never for a consecutive level")
-            # nothing but the message and the warning inside the branch
-            for _w, conds in sites:
+            # nothing but the message and the warning inside the branch (not re-judged when the condition is already a violation)
+            for _w, conds in sites if not bad else []:
                 for st in ast.walk(conds[-1][0]):
                     if isinstance(st, ast.stmt) and not isinstance(st, ast.If):
                         plain = (isinstance(st, ast.Assign) and all(isinstance(t, ast.Name) for t in st.targets)) or (isinstance(st, ast.Expr) and st.value in wcalls)
@@ -1286,29 +1350,26 @@ def r3_ordering_roles(corpus: Corpus, rep: Report, tier: str):
 
     # (e) the map starts as {0: document}; closed list of writers
     sr = base.func(f"{RENDERER}.setup_render")
-    init = [n for n in sr.local_nodes() if isinstance(n, (ast.Assign, ast.AnnAssign)) and any(is_self_attr(t, LEVEL_MAP) for t in store_targets(n))]
+    init = []
+    for f in _all_plain_functions(corpus):
+        found = [n for n in f.local_nodes() if isinstance(n, (ast.Assign, ast.AnnAssign)) and any(is_self_attr(t, LEVEL_MAP) for t in store_targets(n))]
+        if found and (f.fq == sr.fq or (f.cls is not None and _is_initialiser(corpus, f))):
+            init += found
     k = f"{sr.fq}|level map starts as {{0: document}}"
     if len(init) != 1 or not isinstance(init[0].value, ast.Dict):
-        raise Unsupported("setup_render does not initialise the level map with a dict literal")
+        raise Unsupported("setup_render (or a helper only it calls) does not initialise the level map with one dict literal")
     dk, dv = init[0].value.keys, init[0].value.values
     if len(dk) == 1 and isinstance(dk[0], ast.Constant) and dk[0].value == 0 and is_self_attr(dv[0], "document"):
         rep.ok("C05.R3", k, base.site(init[0]))
     else:
         rep.violation("C05.R3", k, base.site(init[0]), f"the level map is initialised as {short(init[0].value, 40)}: level 0 must be the document so that a first heading of any level has a parent")
-    allowed = {sr.fq, upd.fq}
+    own = {upd.fq}
+    rep.ok("C05.R3", f"{upd.fq}|writes {LEVEL_MAP}", upd.site(), "the level-state update (simulated above)")
     for fi in _all_plain_functions(corpus):
-        ws = writes_attr(fi.local_nodes(), LEVEL_MAP)
-        if not ws:
-            continue
-        k = f"{fi.fq}|writes {LEVEL_MAP}"
-        if fi.fq in allowed:
-            rep.ok("C05.R3", k, fi.module.site(ws[0]), "initialisation / the level-state update")
-        elif fi.is_generator() and fi.parent_func is not None and fi.parent_func.name == "nested_render_text":
-            rep.ok("C05.R3", k, fi.module.site(ws[0]), "restore after a nested render (judged by R4)")
-        elif fi.fq == rh.fq and all(any(w is x for st in _rubric_site(corpus, base, rh).rh_region() for x in own_nodes(st)) for w in ws):
-            pass  # on the rubric path: a violation reported by R2
-        else:
-            rep.error("C05.R3", f"{fi.fq} writes the level map ({fi.module.site(ws[0])}): writer outside the closed list is not understood")
+        if fi.is_generator() and fi.parent_func is not None and fi.parent_func.name == "nested_render_text" and writes_attr(fi.local_nodes(), LEVEL_MAP):
+            own.add(fi.fq)
+            rep.ok("C05.R3", f"{fi.fq}|writes {LEVEL_MAP}", fi.site(), "restore after a nested render (judged by R4)")
+    _judge_foreign_writers(corpus, rep, "C05.R3", "map", own)
     rep.expect_min("C05.R3", 8, "argument roles, selection, attach, map simulation, 2 warning items, initial map, >=3 writers")
 
 
@@ -1353,6 +1414,115 @@ def _guard_set(cfg, st) -> frozenset:
 
 
 CELL_TXT = {"offset": "_heading_offset", "map": "_level_to_section", "root": 'md_env["temp_root_node"]'}
+
+
+# -- writers of nested-render state outside the save/restore pairing ------------------------------------------
+
+
+def _x_root_lookup(e: ast.AST) -> bool:
+    return is_temp_root_lookup(e) is not None
+
+
+def _x_cell_read(e: ast.AST, cell: str, copy_only: bool = False) -> bool:
+    """``e`` reads the cell (any receiver: self, self.renderer, renderer ...)."""
+    if cell == "offset":
+        return is_attr(e, OFFSET)
+    if cell == "root":
+        return _x_root_lookup(e)
+    if is_attr(e, LEVEL_MAP):
+        return not copy_only
+    if isinstance(e, ast.Call) and dotted(e.func) == "dict" and len(e.args) == 1 and _map_keys_iter(e.args[0]) in ("keys", "items"):
+        return True
+    if isinstance(e, ast.Call) and isinstance(e.func, ast.Attribute) and e.func.attr == "copy" and is_attr(e.func.value, LEVEL_MAP):
+        return True
+    return False
+
+
+def _x_cell_writes(fi: FunctionInfo, cell: str) -> list[ast.AST]:
+    """Constructs of ``fi`` that change the cell."""
+    nodes_ = fi.local_nodes()
+    if cell == "offset":
+        return writes_attr(nodes_, OFFSET)
+    if cell == "map":
+        return writes_attr(nodes_, LEVEL_MAP)
+    out = []
+    for n in nodes_:
+        if isinstance(n, ast.stmt):
+            for t in store_targets(n):
+                if is_temp_root_lookup(t) == "item":
+                    out.append(n)
+        if isinstance(n, ast.Call) and isinstance(n.func, ast.Attribute) and n.func.attr in ("pop", "setdefault", "__setitem__", "__delitem__") and is_attr(n.func.value, "md_env"):
+            if n.args and isinstance(n.args[0], ast.Constant) and n.args[0].value == TEMP_ROOT_KEY:
+                out.append(n)
+    return out
+
+
+def _is_initialiser(corpus: Corpus, fi: FunctionInfo, depth: int = 0) -> bool:
+    """setup_render / __init__ of a renderer class, or a helper only they call: runs before a render, not during it."""
+    if fi.cls is not None and fi.name in ("setup_render", "__init__") and ".mdit_to_docutils." in fi.module.name + ".":
+        return True
+    if depth >= 2 or fi.cls is None:
+        return False
+    callers = _callers_by_name(corpus, fi.name)
+    return bool(callers) and all(_is_initialiser(corpus, c, depth + 1) for c, _ in callers)
+
+
+def _unpaired_write(fi: FunctionInfo, w: ast.AST, cell: str) -> str | None:
+    """None if the write ``w`` restores a saved value or is bracketed by its own save/restore; else what is wrong."""
+    cfg = get_cfg(fi)
+    wst = cfg.stmt_of(w)
+    is_plain = isinstance(w, ast.Assign) and len(w.targets) == 1 and (is_attr(w.targets[0], OFFSET if cell == "offset" else LEVEL_MAP) if cell != "root" else is_temp_root_lookup(w.targets[0]) == "item")
+    if is_plain and isinstance(w.value, ast.Name):
+        d = single_def(fi, w.value.id)
+        if d is not None and _x_cell_read(d, cell):
+            return None  # puts a value back that was read from the cell in this function
+    # own bracket: saved before, restored on every path after
+    for s in fi.local_nodes():
+        if not (isinstance(s, ast.Assign) and len(s.targets) == 1 and isinstance(s.targets[0], ast.Name) and _x_cell_read(s.value, cell, copy_only=(cell == "map"))):
+            continue
+        name = s.targets[0].id
+        if len(name_assignments(fi, name)) != 1 or not cfg.dominates(cfg.stmt_of(s), wst):
+            continue
+        for r in fi.local_nodes():
+            if isinstance(r, ast.Assign) and len(r.targets) == 1 and isinstance(r.value, ast.Name) and r.value.id == name and r is not w:
+                t = r.targets[0]
+                same = (cell == "offset" and is_attr(t, OFFSET)) or (cell == "map" and is_attr(t, LEVEL_MAP)) or (cell == "root" and is_temp_root_lookup(t) == "item")
+                if same and cfg.postdominates(cfg.stmt_of(r), wst):
+                    return None
+    if isinstance(w, ast.AugAssign) and isinstance(w.op, ast.Add):
+        for r in fi.local_nodes():
+            if isinstance(r, ast.AugAssign) and isinstance(r.op, ast.Sub) and unparse(r.target) == unparse(w.target) and unparse(r.value) == unparse(w.value) and cfg.postdominates(cfg.stmt_of(r), wst):
+                return None
+    return "the previous value is neither saved-and-restored around it nor is the written value one that was read from it before"
+
+
+WHY_CELL = {
+    "offset": "after this statement the heading offset of an enclosing :heading-offset: include is lost, so its remaining headings are rendered at the wrong level",
+    "map": "the open sections of the enclosing document are replaced/changed behind the back of the level-state update: following headings nest under the wrong section",
+    "root": "the temp root of an enclosing match_titles nested parse is lost/forged: headings after this point take the wrong section-vs-rubric branch",
+}
+
+
+def _judge_foreign_writers(corpus: Corpus, rep: Report, rule_id: str, cell: str, own: set[str]) -> None:
+    """Every change of a nested-render state cell outside ``own`` (initialisers are fine) must be part of a save/restore pair."""
+    for fi in _all_plain_functions(corpus):
+        if fi.fq in own:
+            continue
+        ws = _x_cell_writes(fi, cell)
+        if not ws:
+            continue
+        if _is_initialiser(corpus, fi):
+            rep.ok(rule_id, f"{fi.fq}|initialises {CELL_TXT[cell]}", fi.module.site(ws[0]), "runs before a render (setup_render/__init__ or a helper only they call)")
+            continue
+        rep.saw_function(fi.fq)
+        for w in ws:
+            k = f"{fi.fq}|changes {CELL_TXT[cell]} outside the save/restore pairing|{short(w, 60)}"
+            why = _unpaired_write(fi, w, cell)
+            if why is None:
+                rep.ok(rule_id, k, fi.module.site(w), "restores a value saved in this function / bracketed by its own save and restore")
+            else:
+                rep.violation(rule_id, k, fi.module.site(w), f"{fi.qualname} sets {CELL_TXT[cell]} during a render (`{short(w, 60)}`): {why}; {WHY_CELL[cell]}")
+
 
 
 @rule("C05.R4")
@@ -1585,11 +1755,9 @@ def r4_save_restore(corpus: Corpus, rep: Report, tier: str):
         rep.violation("C05.R4", k, base.site(ldef), "the heading level ignores the heading offset: headings of an include with :heading-offset: are not shifted")
     else:
         raise Unsupported(f"heading level `{short(ldef, 50)}` is not int(token.tag[1]) + self.{OFFSET}")
-    # writers of the offset: setup_render + the context manager
-    for fi in _all_plain_functions(corpus):
-        ws = writes_attr(fi.local_nodes(), OFFSET)
-        if ws and fi.fq not in (cm.fq, base.func(f"{RENDERER}.setup_render").fq):
-            rep.error("C05.R4", f"{fi.fq} writes {OFFSET} ({fi.module.site(ws[0])}): writer outside setup_render / the restoring context manager is not understood")
+    # every other change of the offset / temp root during a render must be its own save/restore pair
+    _judge_foreign_writers(corpus, rep, "C05.R4", "offset", {cm.fq})
+    _judge_foreign_writers(corpus, rep, "C05.R4", "root", {cm.fq})
 
     if tier == "thorough":
         _heading_tag_shape(corpus, rep)
@@ -1741,6 +1909,19 @@ def mutants(corpus: Corpus):
         ind = " " * last.col_offset
         add("c05-skipped-heading-makes-no-section", "C05.R3", base, last, seg(base, last) + f"\n{ind}return", expect="attached once to the selected parent")
         add("c05-warning-twice", "C05.R3", base, last, seg(base, last) + f"\n{ind}" + seg(base, last), expect="at most once")
+    if wif is not None:
+        # class: the warning is gated by state that changes during the render (memo of reported skips, md_env flag, current node)
+        first = wif.body[0]
+        ind = " " * first.col_offset
+        t = seg(base, wif.test)
+        lv_ = upd.params[2]
+        out.append(Mutant("c05-warning-memoised-per-level", "C05.R3", base.rel,
+                          splice(splice(base.src, first, f"self._heading_slugs[str({lv_})] = (None, '', '')\n{ind}" + seg(base, first)), wif.test, f"({t}) and str({lv_}) not in self._heading_slugs"),
+                          expect="warning iff"))
+        out.append(Mutant("c05-warning-once-per-document", "C05.R3", base.rel,
+                          splice(splice(base.src, first, f"self.md_env['myst_heading_skip_warned'] = True\n{ind}" + seg(base, first)), wif.test, f"({t}) and not self.md_env.get('myst_heading_skip_warned')"),
+                          expect="warning iff"))
+        add("c05-warning-only-under-a-section", "C05.R3", base, wif.test, f"({t}) and isinstance(self.current_node, nodes.section)", expect="warning iff")
     sr = base.func(f"{RENDERER}.setup_render")
     init = find_node(sr, lambda n: isinstance(n, ast.Dict) and isinstance(parent(n), (ast.Assign, ast.AnnAssign)) and any(is_self_attr(t, LEVEL_MAP) for t in store_targets(parent(n))))
     if init is not None:
@@ -1771,6 +1952,18 @@ def mutants(corpus: Corpus):
     call = find_node(inc, lambda n: isinstance(n, ast.Call) and isinstance(n.func, ast.Attribute) and n.func.attr == "nested_render_text")
     if call is not None and kwarg(call, "heading_offset") is not None:
         add("c05-include-ignores-heading-offset", "C05.R4", mk, kwarg(call, "heading_offset"), "0", expect="heading-offset option")
+    # class: nested-render state changed outside the save/restore pairing
+    tr = find_node(inc, lambda n: isinstance(n, ast.Try) and n.finalbody and method_calls(list(ast.walk(n)), "nested_render_text"))
+    if tr is not None:
+        f0 = tr.finalbody[0]
+        ind = " " * f0.col_offset
+        add("c05-include-resets-offset-in-finally", "C05.R4", mk, f0, seg(mk, f0) + f"\n{ind}self.renderer.{OFFSET} = 0", expect="outside the save/restore pairing")
+    else:
+        out.append(("c05-include-resets-offset-in-finally", "include mock has no try/finally around the nested render"))
+    last = np_.node.body[-1]
+    ind = " " * last.col_offset
+    add("c05-nested-parse-clears-temp-root", "C05.R4", mk, last, seg(mk, last) + f"\n{ind}self._renderer.md_env['{TEMP_ROOT_KEY}'] = None", expect="outside the save/restore pairing")
+    add("c05-nested-parse-resets-level-map", "C05.R3", mk, last, seg(mk, last) + f"\n{ind}self._renderer.{LEVEL_MAP} = {{0: self.document}}", expect="outside the save/restore pairing")
     lvl = find_node(rh, lambda n: isinstance(n, ast.BinOp) and isinstance(n.op, ast.Add) and (is_self_attr(n.right, OFFSET) or is_self_attr(n.left, OFFSET)))
     if lvl is not None:
         add("c05-offset-subtracted", "C05.R4", base, lvl, f"{seg(base, lvl.left)} - {seg(base, lvl.right)}", expect="level = tag digit")
